@@ -128,7 +128,7 @@ def bad_scalar(t):
 
 def run(tier, seed):
     V = common.Verdict("C03", tier, seed)
-    configs = ["K17"] if tier == "quick" else ["K17", "K17A", "K20"]
+    configs = ["K17", "K20"] if tier == "quick" else ["K17", "K17A", "K20"]
     nw = 0
     for cfg in configs:
         try:
